@@ -27,7 +27,7 @@ Next == /\ ~done /\ done' = TRUE /\ UNCHANGED tid
            ELSE LET R == Report(b)  I == Image(b)  aw == AWm(R.is64)
                     ok == \A e \in DOMAIN f.exts : f.exts[e].seg < Len(I)
                     S == IF ok THEN SlotsFor(R, I, f.exts, aw) ELSE <<>> IN
-                PrintT(ToJson([t |-> f.t, segs |-> ImageVerdicts(I, f.obs, f.exts, S, aw),
+                PrintT(ToJson([t |-> f.t, segs |-> ImageVerdicts(I, f.obs, f.exts, S, aw, <<>>, ""),
                                pc |-> IF f.pc = <<>> THEN "PcNotConstant" ELSE IF EqD(f.pc, R.entry) THEN "ok" ELSE "PcIsNotEntry",
                                fetch |-> IF f.fetch.bytes = <<>> \/ f.fetch.bytes = AtAddr(b, f.fetch.a, Len(f.fetch.bytes)) THEN "ok"
                                          ELSE "FetchedBytesDiffer",
